@@ -78,6 +78,9 @@ def _verify(repo, ctab, spec, res):
     env = {}
     arg_names = [a for a, _ in spec.args]
     for (nm, ty) in spec.args:
+        if ty.kind == 'none':
+            env[nm] = NONE_V
+            continue
         if ty.kind == 'tup':
             v = unpack(ty, z3.Const('arg_' + nm, sort_of(ty)))
         else:
@@ -183,6 +186,7 @@ def _verify(repo, ctab, spec, res):
             for rs in spec.raises:
                 if rs.iff:
                     w = E.speceval.formula(rs.when, ctx0)
+                    s.assume(*ctx0.side)
                     E.obligations.append(_mk(spec, 'raises/%s/must_raise' % rs.exc, s, z3.Not(w), trace=s.trace, entry=entry))
         else:
             exc = val
@@ -196,6 +200,7 @@ def _verify(repo, ctab, spec, res):
                     E.obligations.append(o)
                 continue
             whens = [E.speceval.formula(rs.when, ctx0) for rs in matching]
+            s.assume(*ctx0.side)
             E.obligations.append(_mk(spec, 'raises/%s/when' % exc.cls, s, z3.Or(*whens), trace=s.trace, entry=entry))
             ctx = SpecCtx(ps, old=entry, entry=entry)
             _bind_defs(E, spec, ctx, entry)
